@@ -102,10 +102,15 @@ def flowOp : Handler := fun args =>
   | .ok d =>
     let env := getStrMap args "env"
     let pname := getStr args "pname"
-    match load env pname d with
+    match loadDict env pname d with
     | .err e => Json.mkObj [("err", e)]
     | .panic s => Json.mkObj [("panic", s)]
     | .ok p =>
+      -- the section-wise form the theorems speak about must give the same project
+      let same := match load env pname d with
+        | .ok q => objsJson (sortObjs q.secrets) == objsJson (sortObjs p.secrets) && objsJson (sortObjs q.configs) == objsJson (sortObjs p.configs)
+        | _ => false
+      if !same then bad "Secrets.load ≠ Secrets.loadDict" else
       Json.mkObj [("ok", Json.mkObj [
         ("secrets", objsJson (sortObjs p.secrets)), ("configs", objsJson (sortObjs p.configs)),
         ("yaml0", (render .yaml false p).toJson), ("yaml1", (render .yaml true p).toJson),
